@@ -157,6 +157,11 @@ theorem notify_never_delivered (cfg : Cfg) (s : State) (hs : Reachable cfg s) (c
 (`pending.remove(&id)`, re-extracted for all three clients). -/
 theorem reader_removes_on_match : ∀ cfg ∈ Gen.Mux.all, cfg.matchRemoves = true := by decide
 
+/-- Premise of the model's `write` step (the request is on the wire when `write_request` returns, so a
+response to it can follow): the flush is unconditional in the TCP clients, the WebSocket client uses
+`send` (re-extracted; an absent or conditional flush is read as "may not flush"). -/
+theorem requests_are_flushed : Gen.Mux.writeFlushes = [true, true, true] := by decide
+
 /-- The WebSocket client is notify-aware (fact re-extracted from `spawn_response_loop`). -/
 theorem ws_is_notify_aware : Gen.Mux.wsCfg.notifyAware = true := by decide
 
